@@ -9,7 +9,7 @@ namespace Model
 def elevCands (corr : ℤ → ℤ → ℚ) (h w : ℤ) (py px height : ℚ) : List ℚ :=
   (irange h).flatMap fun (y : ℤ) => (irange w).filterMap fun (x : ℤ) =>
     let d2 := ((y : ℚ) - py) ^ 2 + ((x : ℚ) - px) ^ 2
-    if Gen.elev_rmin * Gen.elev_rmin ≤ d2 then some ((height - corr y x) ^ 2 / d2) else none
+    if Model.elev_rmin * Model.elev_rmin ≤ d2 then some ((height - corr y x) ^ 2 / d2) else none
 
 theorem elevation2_eq (corr : ℤ → ℤ → ℚ) (h w : ℤ) (py px height : ℚ) :
     elevation2 corr h w py px height
